@@ -137,23 +137,22 @@ def _buffered(case: dict) -> dict:
         obs["evaluations"] += 1
         wf2 = run.wf_id
         run.ledger = [r for r in run.ledger if r["wf"] == wf2]
-        wf_status_at_cancel = None
         tau = next((a["seq"] for a in run.audit if a["kind"] == "cancel" and a["a"] == wf2 and str(a["d"]) == "1"), None)
+        # when was the CancelWorkflow message consumed, and what was the workflow's status then?
+        handled = next((a["seq"] for a in run.audit if a["kind"] == "mark" and a["op"] == "ins" and a["b"] == "CancelWorkflow" and a["c"] == wf2), None)
+        at = tau if tau is not None else handled
+        wf_status_at_cancel = None
         for a in run.audit:
-            if a["kind"] == "status" and a["op"] in ("wf", "wf_ins") and a["a"] == wf2 and (tau is None or a["seq"] < tau):
+            if a["kind"] == "status" and a["op"] in ("wf", "wf_ins") and a["a"] == wf2 and (at is None or a["seq"] < at):
                 wf_status_at_cancel = a["d"]
         v, o, k = cancel_oracle(second, run)
         obs.update(o)
         if wf_status_at_cancel == "BUFFERED":
             obs["cancels_of_buffered_workflow"] += 1
             keys.add(f"buffered:{case['order']}:{case['keep']}:{step}")
-        if tau is None and run.state["wf"] not in oracles.COMPLETE:
-            v.append(viol("C17/cancel-request-had-no-effect", f"the cancel was consumed while the workflow was {wf_status_at_cancel}; is_canceled never set, workflow ends {run.state['wf']}"))
-        elif tau is None and run.ledger and wf_status_at_cancel in ("BUFFERED", "NOT_STARTED", None):
-            # the cancel was processed (no flag row) before the workflow ever ran, yet it ran
-            marks = [a for a in run.audit if a["kind"] == "mark" and a["b"] == "CancelWorkflow"]
-            if marks and any(r["seq"] > marks[0]["seq"] for r in run.ledger):
-                v.append(viol("C17/cancel-request-had-no-effect", f"CancelWorkflow was consumed at seq {marks[0]['seq']} without setting is_canceled; {len(run.ledger)} task(s) of the workflow ran afterwards, workflow ends {run.state['wf']}"))
+        if tau is None and handled is not None and wf_status_at_cancel not in oracles.COMPLETE:
+            later = [r for r in run.ledger if r["seq"] >= handled]
+            v.append(viol("C17/cancel-request-had-no-effect", f"CancelWorkflow was consumed at seq {handled} while the workflow was {wf_status_at_cancel} without setting is_canceled; {len(later)} task(s) began executing afterwards, workflow ends {run.state['wf']}"))
         for x in v:
             x.update(scenario="buffered", cancel_at_step=step, order=case["order"])
         violations += v
